@@ -1,4 +1,8 @@
 import DoltVerif.Lemmas.CorruptStages
+import DoltVerif.Lemmas.CorruptLookup
+import DoltVerif.Lemmas.CorruptArchive
+import DoltVerif.Lemmas.CorruptJournal
+import DoltVerif.Model.CorruptWitness
 /-!
 C10 — Corrupted storage files are reported, never misread.
 
@@ -277,6 +281,119 @@ theorem get_panics_on_short_length :
     (openFile (wTable 0 3 20) 1 >>= fun o => o.get (wAddr 20)) = .error .panicWouldOccur := by
   apply isPanic_eq; decide +kernel
 
+/-! ### the positive side of `lookup_no_panic_full`: exactly the two missing guards, as hypotheses -/
+
+theorem readAt_length {k : ReaderKind} {file : Bytes} {off len : Nat} {buff : Bytes}
+    (h : readAt k file off len = .ok buff) : buff.length = len := by
+  unfold readAt at h
+  split at h
+  · cases h
+  · cases k with
+    | osFile =>
+      simp only [] at h
+      split at h
+      · rename_i h0; injection h with h; subst h; simp at h0; simp [h0]
+      · split at h
+        · injection h with h; subst h; simp [List.length_take, List.length_drop]; omega
+        · cases h
+    | bytesReader =>
+      simp only [] at h
+      split at h
+      · cases h
+      · split at h
+        · injection h with h; subst h; simp [List.length_take, List.length_drop]; omega
+        · cases h
+
+theorem sub64_four {n : Nat} (h4 : 4 ≤ n) (hlt : n < two64) : sub64 n checksumSize = n - 4 := by
+  unfold sub64 checksumSize
+  have e4 : 4 % two64 = 4 := by decide
+  rw [e4]
+  have : n + two64 - 4 = (n - 4) + two64 := by omega
+  rw [this, Nat.add_mod_right]
+  exact Nat.mod_eq_of_lt (by omega)
+
+/-- `NewCompressedChunk` does not panic on a buffer of at least 4 bytes -/
+theorem newCompressedChunk_no_panic {buff : Bytes} (h4 : 4 ≤ buff.length) (hlt : buff.length < two64) :
+    newCompressedChunk buff ≠ .error .panicWouldOccur := by
+  rw [newCompressedChunk_eq buff _ rfl, sub64_four h4 hlt]
+  have h1 : buff.length - 4 ≤ buff.length := by omega
+  have h2 : 4 ≤ buff.length - (buff.length - 4) := by omega
+  rw [if_pos h1, if_pos h2]
+  split
+  · intro h; cases h
+  · intro h; cases h
+
+/-- the second guard dolt lacks: every record length the index yields is at least `checksumSize` -/
+def RecordLengthsOk (ti : TableIndex) : Prop :=
+  ∀ ord off len, ord < ti.count → ti.getIndexEntry ord = .ok (off, len) → 4 ≤ len
+
+/-- **lookup_no_panic_partial**: on a well-shaped index (`WF`: what `newOnHeapTableIndex` builds,
+see `openFile_wf`) `has` and `get` never panic **provided** every ordinal stored in a prefix tuple
+is below the chunk count and every record length is ≥ 4 — the two checks the Go code does not
+make (`lookup_no_panic_full_false` shows each is needed). -/
+theorem lookup_no_panic_partial (o : Open) (h : Bytes) (w : WF o.idx)
+    (hord : TableIndex.OrdinalsInRange o.idx) (hlen : RecordLengthsOk o.idx) :
+    o.has h ≠ .error .panicWouldOccur ∧ o.get h ≠ .error .panicWouldOccur := by
+  obtain ⟨e, he, hfound⟩ := TableIndex.lookup_ok w hord h
+  constructor
+  · unfold Open.has
+    simp only [bind, Except.bind, he, pure, Except.pure]
+    intro hc; cases hc
+  · unfold Open.get
+    rw [he]
+    cases e with
+    | none => intro hc; cases hc
+    | some x =>
+      obtain ⟨off, len⟩ := x
+      obtain ⟨ord, hlt, hent⟩ := hfound (off, len) rfl
+      have h4 : 4 ≤ len := hlen ord off len hlt hent
+      have h32 : len < two32 := TableIndex.getIndexEntry_len_lt hent
+      show getChunk (readAt o.kind o.data off len) ≠ _
+      cases hr : readAt o.kind o.data off len with
+      | error err =>
+        intro hc
+        have : err = .panicWouldOccur := by injection hc
+        subst this
+        unfold readAt at hr
+        split at hr
+        · cases hr
+        · cases hk : o.kind <;> rw [hk] at hr <;> simp only [] at hr <;> (repeat' split at hr) <;> cases hr
+      | ok buff =>
+        have hbl : buff.length = len := readAt_length hr
+        have hnp := @newCompressedChunk_no_panic buff (by omega) (by rw [hbl]; exact Nat.lt_trans h32 (by decide))
+        show afterChunk (newCompressedChunk buff) ≠ _
+        cases hc : newCompressedChunk buff with
+        | error err =>
+          intro hcc
+          have : err = .panicWouldOccur := by injection hcc
+          subst this; exact hnp hc
+        | ok cd =>
+          show finishGet cd ≠ _
+          unfold finishGet
+          split <;> (intro hcc; cases hcc)
+
+/-- the same for a table file opened by the store's own path: the shape `WF` is what the parser
+builds (`openFile_wf`; `hsmall` excludes the 15 GiB indexes on which the uint32 product
+`chunks1*offsetSize` wraps), and the two missing guards are the decidable checks
+`ordinalsInRangeB` / `lengthsOkB` over the parsed index. -/
+theorem lookup_no_panic_partial_file (file : Bytes) (m : Nat) (o : Open) (h : Bytes)
+    (hopen : openFile file m = .ok o) (hsmall : (m - m / 2) * offsetSize < two32)
+    (hord : ordinalsInRangeB o.idx = true) (hlen : lengthsOkB o.idx = true) :
+    o.has h ≠ .error .panicWouldOccur ∧ o.get h ≠ .error .panicWouldOccur :=
+  lookup_no_panic_partial o h (openFile_wf hopen hsmall) (ordinalsInRangeB_sound hord) (lengthsOkB_sound hlen)
+
+/-- the hypotheses hold for the valid witness file … -/
+example : (match openFile (wTable 0 7 20) 1 with
+    | .ok o => ordinalsInRangeB o.idx && lengthsOkB o.idx
+    | .error _ => false) = true := by decide +kernel
+/-- … and each of the two crashing files violates exactly one of them -/
+example : (match openFile (wTable 2 7 20) 1 with
+    | .ok o => !ordinalsInRangeB o.idx && lengthsOkB o.idx
+    | .error _ => false) = true := by decide +kernel
+example : (match openFile (wTable 0 3 20) 1 with
+    | .ok o => ordinalsInRangeB o.idx && !lengthsOkB o.idx
+    | .error _ => false) = true := by decide +kernel
+
 /-! ### manifest -/
 
 /-- `parseManifest` (version prefix loop, v4 and v5 bodies, `parseSpecs`) is total and panic-free
@@ -312,6 +429,95 @@ example : (match Manifest.parseManifest
     ([0x35, 0x3a, 0x78, 0x3a] ++ zeros32 ++ [0x3a] ++ zeros32 ++ [0x3a] ++ zeros32) with | .ok _ => true | _ => false) = true := by
   decide +kernel
 
+/-! ### archive index path (in-memory reader) -/
+section ArchiveIndex
+open DoltVerif.Corrupt.Archive
+
+theorem readSection_cases (file : Bytes) (off n : Nat) :
+    (∃ b, readSection file off n = .ok b) ∨ readSection file off n = .error .seek ∨ readSection file off n = .error .eof := by
+  unfold readSection
+  split
+  · exact Or.inl ⟨_, rfl⟩
+  · split
+    · exact Or.inr (Or.inl rfl)
+    · split
+      · exact Or.inl ⟨_, rfl⟩
+      · exact Or.inr (Or.inr rfl)
+
+theorem readSection_bind_no_panic {α : Type} (file : Bytes) (off n : Nat) (k : Bytes → R α)
+    (hk : ∀ b, k b ≠ .error .panicWouldOccur) : (readSection file off n >>= k) ≠ .error .panicWouldOccur := by
+  rcases readSection_cases file off n with ⟨b, hb⟩ | hb | hb
+  · rw [hb]; exact hk b
+  · rw [hb]; intro h; cases h
+  · rw [hb]; intro h; cases h
+
+/-- `newInMemoryArchiveIndexReader`: the four index sections are read through section readers at
+offsets computed in wrapping uint64 arithmetic; whatever the footer claims, loading ends in a read
+error or an index, never in a panic.  (Allocation of `byteSpanCount+1` / `chunkCount` elements is
+not modelled: up to 32 GiB, the `archive:index-region:oom` finding.) -/
+theorem loadIndexWith_no_panic (file : Bytes) (f : Footer) : loadIndexWith file f ≠ .error .panicWouldOccur := by
+  unfold loadIndexWith
+  apply readSection_bind_no_panic; intro spans
+  apply readSection_bind_no_panic; intro pre
+  apply readSection_bind_no_panic; intro refs
+  apply readSection_bind_no_panic; intro suf
+  intro h; cases h
+
+/-- the archive open path (footer + index sections) on an arbitrary file -/
+theorem parse_total_no_panic_archiveIndex (file : Bytes) : loadIndex file ≠ .error .panicWouldOccur := by
+  unfold loadIndex
+  cases hf : loadFooter file with
+  | error e =>
+    intro hc
+    have : e = .panicWouldOccur := by simpa [bind, Except.bind] using hc
+    subst this; exact parse_total_no_panic_archiveFooter file hf
+  | ok f => exact loadIndexWith_no_panic file f
+
+/-- archive reads at full strength: `has` and `get` never panic on an opened archive -/
+def archive_get_no_panic_full : Prop :=
+  ∀ (file : Bytes) (x : Index) (h : Bytes), loadIndex file = .ok x → Archive.get x file h ≠ .error .panicWouldOccur
+
+/-- the valid hand-assembled archive reads back (`Witness.arcFile`; the harness opens the same
+bytes with the real reader on every run) -/
+theorem witness_archive_reads :
+    (match loadIndex Witness.arcFile >>= fun x => Archive.get x Witness.arcFile Witness.arcAddr with
+      | .ok (.snappy p) => p == Witness.payload | _ => false) = true := by decide +kernel
+
+/-- FALSE: span ends are never checked (not against each other, not against the file size): with
+the first byte of the span index set to 0xFF the span length is 0xFF00000000000000 and
+`readByteSpan` calls `make([]byte, …)` with it (`makeslice: len out of range`); a span of length 0
+trips the `Sample(0)` assertion of `fileReaderAt.ReadAtWithStats` instead.  Replayed on the real
+reader by the harness (key `archive:index-region:panic`). -/
+theorem archive_get_no_panic_full_false : ¬ archive_get_no_panic_full := by
+  intro hfull
+  have h : isPanic (loadIndex Witness.arcFileBad >>= fun x => Archive.get x Witness.arcFileBad Witness.arcAddr) = true := by
+    decide +kernel
+  cases hl : loadIndex Witness.arcFileBad with
+  | error e =>
+    have hne : isPanic (loadIndex Witness.arcFileBad) = false := by decide +kernel
+    rw [hl] at h hne
+    simp [bind, Except.bind, isPanic] at h hne
+    cases e <;> simp_all
+  | ok x =>
+    rw [hl] at h
+    exact hfull _ x _ hl (isPanic_eq (by simpa [bind, Except.bind] using h))
+
+
+/-- **archive_has_no_panic**: on an archive opened by the store's path, `has` (prefix search +
+suffix walk) never panics — even when the prefixes are damaged and no longer sorted:
+`prollyBinSearch` re-establishes `lo < target ≤ hi` by explicit comparisons, so the interpolated
+index stays in range and `bits.Div64` never overflows (`prollyBinSearch_no_panic`, for every
+slice); the accessors are bounds-checked.  The panics of archive reads start after the lookup:
+`archive_get_no_panic_full_false`. -/
+theorem archive_has_no_panic (file : Bytes) (x : Index) (h : Bytes) (hl : loadIndex file = .ok x) :
+    x.has h ≠ .error .panicWouldOccur :=
+  has_no_panic (loadIndex_wf hl) h
+
+example : (match loadIndex Witness.arcFile with | .ok x => (match x.has Witness.arcAddr with | .ok b => b | _ => false) | _ => false) = true := by
+  decide +kernel
+
+end ArchiveIndex
+
 /-! ### journal index records -/
 
 /-- `processIndexRecords` is total and panic-free on arbitrary bytes: the fixed-size arrays are
@@ -340,6 +546,20 @@ def wRecord : Bytes := [0, 0, 0, 9, 2] ++ natBE 4 (crc32c [0, 0, 0, 9, 2])
 enough to crash journal bootstrap (harness key `panic:jrn:nbs.readJournalRecord`). -/
 theorem journal_scan_no_panic_full_false : ¬ journal_scan_no_panic_full := by
   intro h; exact h wRecord 1048576 (by decide +kernel)
+
+/-- **journal_scan_no_panic_partial**: the record scan of journal bootstrap never panics
+**provided** every record of the file that passes `validateJournalRecord` has a well-formed field
+layout (`Journal.fieldsOk`: an address field has its 20 bytes, a timestamp field its 8, the walk
+ends on the 4 checksum bytes) — the check `readJournalRecord` does not make.  Inside the scan
+`validateJournalRecord` itself is panic-free (`Journal.validate_no_panic`: its `uint32`
+underflow needs a length field below 4, which the scan never passes). -/
+theorem journal_scan_no_panic_partial (data : Bytes) (buffSize : Nat) (hg : Journal.ScanGuard data) :
+    (Journal.scan data buffSize).2 ≠ some .panicWouldOccur :=
+  Journal.scanLoop_no_panic data buffSize hg _ _ _
+
+/-- the guard is decidable per record: a root-hash record shape passes, the witness record fails -/
+example : Journal.fieldsOk 10 ([1, 1, 2] ++ List.replicate 20 7 ++ [4] ++ List.replicate 8 0 ++ [0, 0, 0, 0]) = true := by decide +kernel
+example : Journal.fieldsOk 10 (wRecord.drop 4) = false := by decide +kernel
 
 /-- `validateJournalRecord` on its own underflows `off -= journalRecChecksumSz` for a length field
 below 4 (unreachable from `processJournalRecordsReader`, which passes `len(buf) = length field`). -/
